@@ -1,1 +1,175 @@
-//! C18 harnesses.
+//! C18 — vectored offer equals offering the concatenation (differential: twin logs, identical symbolic initial state).
+use super::util::*;
+use crate::concurrent::atomic_buffer::AtomicBuffer;
+use crate::concurrent::logbuffer::exclusive_term_appender::ExclusiveTermAppender;
+use crate::concurrent::logbuffer::header::HeaderWriter;
+use crate::concurrent::logbuffer::term_appender::{default_reserved_value_supplier, TermAppender};
+use crate::utils::errors::AeronError;
+
+const T: usize = 256;
+
+pub fn supplier(_b: AtomicBuffer, off: i32, len: i32) -> i64 {
+    0x0102_0304_0506_0708 ^ ((off as i64) << 8) ^ len as i64
+}
+
+pub struct Twin {
+    pub term_a: Mem<T>,
+    pub term_b: Mem<T>,
+    pub meta_a: Mem<32>,
+    pub meta_b: Mem<32>,
+    pub hdr: Mem<32>,
+    pub term_id: i32,
+    pub tail: i32,
+}
+
+impl Twin {
+    /// identical twin logs: symbolic term contents, session/stream ids, term id; tail offset given
+    pub fn new(tail: i32) -> Twin {
+        let content: [u8; T] = kani::any();
+        let mut hdr = Mem::<32>::zeroed();
+        let (session, stream): (i32, i32) = (kani::any(), kani::any());
+        let term_id: i32 = kani::any();
+        let mut t = Twin { term_a: Mem(content), term_b: Mem(content), meta_a: Mem::zeroed(), meta_b: Mem::zeroed(), hdr, term_id, tail };
+        t.hdr.buf().put::<i32>(12, session);
+        t.hdr.buf().put::<i32>(16, stream);
+        t.meta_a.buf().put::<i64>(0, pack_tail(term_id, tail));
+        t.meta_b.buf().put::<i64>(0, pack_tail(term_id, tail));
+        t
+    }
+    pub fn same_everywhere(&self) -> bool {
+        let i: usize = kani::any();
+        kani::assume(i < T);
+        let j: usize = kani::any();
+        kani::assume(j < 8);
+        self.term_a.0[i] == self.term_b.0[i] && self.meta_a.0[j] == self.meta_b.0[j]
+    }
+}
+
+fn res_eq(a: &Result<i32, AeronError>, b: &Result<i32, AeronError>) -> bool {
+    match (a, b) {
+        (Ok(x), Ok(y)) => x == y,
+        (Err(_), Err(_)) => true,
+        _ => false,
+    }
+}
+
+/// `len` bytes of `src` as k views cut at the split points s1 <= s2 (concrete per instance; bytes symbolic)
+fn views(src: &mut [u8; 96], len: i32, k: usize, s1: i32, s2: i32) -> Vec<AtomicBuffer> {
+    assert!(0 <= s1 && s1 <= s2 && s2 <= len);
+    let p = src.as_mut_ptr();
+    let at = |o: i32, l: i32| AtomicBuffer::new(unsafe { p.add(o as usize) }, l);
+    match k {
+        1 => vec![at(0, len)],
+        2 => vec![at(0, s1), at(s1, len - s1)],
+        _ => vec![at(0, s1), at(s1, s2 - s1), at(s2, len - s2)],
+    }
+}
+
+// Instances: (tail offset, message length, number of buffers, split points) are concrete - a copy whose destination
+// offset and size are both symbolic costs 15 M SAT variables on a 256-byte term (measured) - everything else (term id,
+// session/stream ids, payload bytes, prior term contents, reserved value) is symbolic.
+macro_rules! unfrag_bulk {
+    ($name:ident, $tail:expr, $len:expr, $k:expr, $s1:expr, $s2:expr) => {
+        #[kani::proof]
+        fn $name() {
+            pretouch();
+            let mut tw = Twin::new($tail);
+            let mut src: [u8; 96] = kani::any();
+            let len: i32 = $len;
+            let hw = HeaderWriter::new(tw.hdr.buf());
+            let a = TermAppender::new(tw.term_a.buf(), tw.meta_a.buf(), 0);
+            let b = TermAppender::new(tw.term_b.buf(), tw.meta_b.buf(), 0);
+            let whole = AtomicBuffer::new(src.as_mut_ptr(), 96);
+            let ra = a.append_unfragmented_message(&hw, &whole, 0, len, supplier, tw.term_id);
+            let bufs = views(&mut src, len, $k, $s1, $s2);
+            let rb = b.append_unfragmented_message_bulk(&hw, bufs, len, supplier, tw.term_id);
+            assert!(res_eq(&ra, &rb), "C18: vectored unfragmented append returns the same resulting offset as the contiguous append");
+            assert!(tw.same_everywhere(), "C18: vectored unfragmented append leaves the same term bytes and raw tail as the contiguous append");
+            kani::cover!(ra.is_ok(), "[must] append returns");
+            std::mem::forget(ra);
+            std::mem::forget(rb);
+        }
+    };
+}
+// @verif tier=quick unwind=5
+unfrag_bulk!(c18_unfragmented_bulk_one_buffer, 0, 17, 1, 0, 0);
+// @verif tier=quick unwind=5
+unfrag_bulk!(c18_unfragmented_bulk_two_buffers, 64, 40, 2, 13, 13);
+// @verif tier=quick unwind=5
+unfrag_bulk!(c18_unfragmented_bulk_three_buffers_max, 128, 64, 3, 1, 33);
+// @verif tier=quick unwind=5
+unfrag_bulk!(c18_unfragmented_bulk_empty_message, 32, 0, 2, 0, 0);
+// @verif tier=thorough unwind=5
+unfrag_bulk!(c18_unfragmented_bulk_empty_first_buffer, 0, 32, 3, 0, 31);
+// @verif tier=thorough unwind=5
+unfrag_bulk!(c18_unfragmented_bulk_empty_last_buffer, 96, 33, 3, 32, 33);
+// @verif tier=thorough unwind=5
+unfrag_bulk!(c18_unfragmented_bulk_fills_term_exactly, 160, 64, 2, 32, 32);
+// @verif tier=thorough unwind=5
+unfrag_bulk!(c18_unfragmented_bulk_trips_term_end, 192, 64, 2, 63, 63);
+
+macro_rules! excl_unfrag_bulk {
+    ($name:ident, $tail:expr, $len:expr, $k:expr, $s1:expr, $s2:expr) => {
+        #[kani::proof]
+        fn $name() {
+            pretouch();
+            let mut tw = Twin::new($tail);
+            let mut src: [u8; 96] = kani::any();
+            let len: i32 = $len;
+            let hw = HeaderWriter::new(tw.hdr.buf());
+            let mut a = ExclusiveTermAppender::new(tw.term_a.buf(), tw.meta_a.buf(), 0);
+            let mut b = ExclusiveTermAppender::new(tw.term_b.buf(), tw.meta_b.buf(), 0);
+            let whole = AtomicBuffer::new(src.as_mut_ptr(), 96);
+            let ra = a.append_unfragmented_message(tw.term_id, $tail, &hw, whole, 0, len, supplier);
+            let bufs = views(&mut src, len, $k, $s1, $s2);
+            let rb = b.append_unfragmented_message_bulk(tw.term_id, $tail, &hw, bufs, len, supplier);
+            assert!(ra == rb, "C18: exclusive vectored append returns the same resulting offset as the contiguous append");
+            assert!(tw.same_everywhere(), "C18: exclusive vectored append leaves the same term bytes and raw tail as the contiguous append");
+        }
+    };
+}
+// @verif tier=quick unwind=5
+excl_unfrag_bulk!(c18_exclusive_unfragmented_bulk_two_buffers, 32, 33, 2, 32, 32);
+// @verif tier=thorough unwind=5
+excl_unfrag_bulk!(c18_exclusive_unfragmented_bulk_three_buffers, 160, 64, 3, 7, 40);
+// @verif tier=thorough unwind=5
+excl_unfrag_bulk!(c18_exclusive_unfragmented_bulk_trips_term_end, 224, 1, 1, 0, 0);
+
+macro_rules! frag_bulk {
+    ($name:ident, $tail:expr, $len:expr, $k:expr, $s1:expr, $s2:expr) => {
+        #[kani::proof]
+        fn $name() {
+            pretouch();
+            let mut tw = Twin::new($tail);
+            let mut src: [u8; 96] = kani::any();
+            let len: i32 = $len;
+            let hw = HeaderWriter::new(tw.hdr.buf());
+            let a = TermAppender::new(tw.term_a.buf(), tw.meta_a.buf(), 0);
+            let mut b = TermAppender::new(tw.term_b.buf(), tw.meta_b.buf(), 0);
+            let whole = AtomicBuffer::new(src.as_mut_ptr(), 96);
+            let ra = a.append_fragmented_message(&hw, &whole, 0, len, 32, supplier, tw.term_id);
+            let bufs = views(&mut src, len, $k, $s1, $s2);
+            let rb = b.append_fragmented_message_bulk(&hw, bufs, len, 32, supplier, tw.term_id);
+            assert!(res_eq(&ra, &rb), "C18: vectored fragmented append returns the same resulting offset as the contiguous append");
+            assert!(tw.same_everywhere(), "C18: vectored fragmented append leaves the same frames, flags, payload bytes and raw tail as the contiguous append");
+            kani::cover!(ra.is_ok(), "[must] append returns");
+            std::mem::forget(ra);
+            std::mem::forget(rb);
+        }
+    };
+}
+// MTU payload 32 B per fragment: 33..=64 -> 2 fragments, 65..=96 -> 3 fragments
+// @verif tier=quick unwind=6
+frag_bulk!(c18_fragmented_bulk_two_fragments_split_inside_first, 0, 40, 2, 13, 13);
+// @verif tier=quick unwind=6
+frag_bulk!(c18_fragmented_bulk_three_fragments_three_buffers, 0, 96, 3, 31, 65);
+// @verif tier=quick unwind=6
+frag_bulk!(c18_fragmented_bulk_split_on_fragment_boundary, 64, 64, 2, 32, 32);
+// @verif tier=thorough unwind=6
+frag_bulk!(c18_fragmented_bulk_one_buffer_three_fragments, 32, 70, 1, 0, 0);
+// @verif tier=thorough unwind=6
+frag_bulk!(c18_fragmented_bulk_tiny_buffers, 0, 33, 3, 1, 2);
+// @verif tier=thorough unwind=6
+frag_bulk!(c18_fragmented_bulk_empty_middle_buffer, 0, 65, 3, 33, 33);
+// @verif tier=thorough unwind=6
+frag_bulk!(c18_fragmented_bulk_trips_term_end, 160, 65, 3, 5, 64);
